@@ -179,6 +179,7 @@ Proof.
   rewrite <- (std_index_encode s r Hw V Hr ltac:(lia)).
   apply irc_loop_ok.
   - exact Hn2.
+  - exact Hlen.
   - intros L2. rewrite Eenc in *. destruct etl as [|e1 etl]; [congruence|]. cbn [nth].
     cbn [forallb] in Hconts. apply andb_true_iff in Hconts as [C1 _].
     unfold is_start in He0. intros E. rewrite E, C1 in He0. discriminate.
